@@ -166,7 +166,7 @@ PROPS["C13"] = {
     "level_note": "Partial: git's own repository discovery is outside the model; equality across addressing modes is checked on generated repositories only.",
     "technique": "Lean 4 proof over regenerated tables (decide) + end-to-end exploration",
     "modules": ["GitSizer.Props.C13", "GitSizer.Props.Pins.Repo"],
-    "engines": [{"name": "addr", "quick": 160, "thorough": 8000, "per_shard": 10}],
+    "engines": [{"name": "addr", "quick": 240, "thorough": 8000, "per_shard": 15}],
     "rule": "generated real repositories with work tree; half carry replace refs and graft lines, one in eight a shallow marker; 5-6 addressing modes per case; non-trivial = every case.",
     "assumptions": ["git honours --no-replace-objects and GIT_GRAFT_FILE"],
 }
@@ -216,15 +216,15 @@ _SRC_PINS = {
     "C08": _CORE + _OUT,
     "C09": _CORE,
     "C10": _CORE + _OPT + ["RefGroupBuilder", "Output"],
-    "C11": _OUT + ["MainFile", "SizesFile", "CountsFile"],
+    "C11": _OUT + ["MainFile", "SizesFile", "CountsFile", "Gitconfig", "GitFile"],
     "C12": ["Human", "CountsFile"],
     "C13": ["GitFile", "GitBin", "MainFile", "ObjIter", "BatchObjIter", "RefIter", "ObjResolver", "Gitconfig"],
     "C14": _OPT + ["RefGroupBuilder", "FilterValue", "FilterGroupValue", "Output", "GitFile"],
     "C15": _REFS + ["GitFile"],
     "C16": _PARSE,
-    "C17": _CORE + _OUT + ["MeterFile", "Gitconfig"],
+    "C17": _CORE + _OUT + _REFS + _OPT + ["MeterFile", "Gitconfig"],
     "C18": ["MeterFile", "MainFile", "Graph", "ObjIter", "BatchObjIter", "RefIter", "IsattyEnabled", "IsattyDisabled"],
-    "C19": _OUT + ["Oid", "MainFile", "SizesFile", "Grouper"],
+    "C19": _OUT + ["Oid", "MainFile", "SizesFile", "Grouper", "RefIter", "Reference", "GitFile", "Graph"],
 }
 for _p, _ms in _SRC_PINS.items():
     _seen = []
